@@ -205,7 +205,7 @@ type splitCase struct {
 
 var splitValRe = regexp.MustCompile(`^value\s+(\w+)\s+in\s+(\d+)\.\.(\d+)$`)
 
-var splitRe = regexp.MustCompile(`^len\((\w+)\)\s+in\s+(\d+)\.\.(\d+)(\s+else)?(?:\s+step\s+(\d+))?$`)
+var splitRe = regexp.MustCompile(`^len\((\w+)\)\s+in\s+(\d+)\.\.(\d+)(\s+else)?(?:\s+step\s+(\d+)(?:/(\d+))?)?$`)
 
 func (e *Engine) splitCases(c *Contract) []splitCase {
 	cases := []splitCase{{lens: map[string]int64{}}}
@@ -329,6 +329,9 @@ func (e *Engine) splitCases(c *Contract) []splitCase {
 		step := int64(1)
 		if len(m) > 5 && m[5] != "" {
 			step, _ = strconv.ParseInt(m[5], 10, 64)
+			if len(m) > 6 && m[6] != "" && e.tier == "thorough" {
+				step, _ = strconv.ParseInt(m[6], 10, 64) // `step q/t`: q in the quick tier, t in the thorough tier
+			}
 		}
 		for _, base := range cases {
 			for l := lo; l <= hi; l += step {
